@@ -1013,4 +1013,45 @@ theorem renamePath_spec (old new : Path) (t : M) (hc : Coherent t) : KeepsMeta t
                 · exact hset.trans (delPath_spec old t1 hset.2.2)
 
 
+
+theorem popPath_spec (p : Path) (t : M) (hc : Coherent t) : KeepsMeta t (popPath p t).1 := by
+  unfold popPath
+  split
+  · exact KeepsMeta.refl hc
+  · split
+    · exact KeepsMeta.refl hc
+    · split
+      · exact KeepsMeta.refl hc
+      · exact delPath_spec p t hc
+
+theorem popItem_spec (t : M) (hc : Coherent t) : KeepsMeta t (popItem t).1 := by
+  cases t with
+  | leaf s d => exact KeepsMeta.refl hc
+  | node bs dv ns kids =>
+    simp only [popItem]
+    split
+    · exact KeepsMeta.refl hc
+    · refine keepsMeta_node (Coherent.node _ _ _ _ hc.names_len ?_ ?_)
+      · intro k c hm; exact hc.kid_fits k c (List.dropLast_subset _ hm)
+      · intro k c hm; exact hc.kid_coh k c (List.dropLast_subset _ hm)
+
+theorem setDefaultPath_spec (p : Path) (v t : M) (hc : Coherent t) (hv : Coherent v) :
+    KeepsMeta t (setDefaultPath p v t).1 := by
+  unfold setDefaultPath
+  split
+  · exact KeepsMeta.refl hc
+  · split
+    · exact KeepsMeta.refl hc
+    · exact setPath_false_spec p v t hc hv
+
+theorem refineNamesM_spec (names : DimNames) (t : M) (hc : Coherent t) : KeepsMeta t (refineNamesM names t).1 := by
+  cases t with
+  | leaf s d => exact KeepsMeta.refl hc
+  | node bs dv ns kids =>
+    simp only [refineNamesM]
+    split
+    · exact KeepsMeta.refl hc
+    · exact setNamesM_spec _ _ hc
+
+
 end TdVerif.C01
